@@ -21,5 +21,10 @@ def run(tier, seed):
                          expected=v.get("expected"), actual=v.get("actual"))
     ev = bounded.evidence_from_native(nat, ["thread interleavings are sampled by the OS scheduler, not explored systematically"])
     ev["coverage"]["evaluations"] += int(ndir.get("evaluations", 0))
+    from .. import framescan
+    fs = framescan.scan()
+    ev["coverage"]["frame_scan"] = fs
+    if fs["state_outside_arguments"]:
+        ev["assumptions"].append("frame scan: constructs that can hold state outside the arguments were found in src/analyzer: %s" % fs["state_outside_arguments"][:5])
     ev["coverage"]["directory_part"] = {k: ndir.get(k) for k in ("evaluations", "distinct_nontrivial", "rule", "bound", "wall_s", "cmd")}
     return vd.finish(ev)
